@@ -142,7 +142,8 @@ def validity (t : Tables) (inFace : Nat) (v : Verb) (hasParamsComp : Bool) (p : 
       | some f => f = 0 || (faceGet t.faces f).isSome
       | none => true
     match v with
-    | .ribRegister | .fibAdd => if a.name.isSome && faceOk then .valid else .invalid
+    | .ribRegister => if a.name.isSome && faceOk && expOk a.exp then .valid else .invalid
+    | .fibAdd => if a.name.isSome && faceOk then .valid else .invalid
     | .ribUnregister | .fibRemove => if a.name.isSome then .valid else .invalid
     | .scSet =>
       (match a.name, a.strategy with
